@@ -15,7 +15,7 @@ BUILTINS = {'len', 'abs', 'min', 'max', 'range', 'slice', 'isinstance', 'int', '
             'sum', 'set', 'dict', 'frozenset', 'id', 'type', 'hash', 'getattr', 'repr', 'print'}
 EXC_NAMES = {'RuntimeError', 'KeyError', 'IndexError', 'ValueError', 'TypeError', 'NotImplementedError',
              'StopIteration', 'AttributeError', 'Exception', 'ZeroDivisionError', 'LookupError'}
-SPECFNS = {'implies', 'iff', 'forall', 'exists', 'forall_in', 'exists_in', 'old', 'cond', 's_start', 's_stop',
+SPECFNS = {'kind_is', 'np_result_type', 'W', 'frozen', 'same_array', 'dtype_class', 'implies', 'iff', 'forall', 'exists', 'forall_in', 'exists_in', 'old', 'cond', 's_start', 's_stop',
            's_step', 'nth', 'in_slice', 'length', 'at', 'is_none', 'some', 'slice_len_le', 'true', 'false',
            'at_or', 'R_len', 'sum_to'}
 
@@ -147,6 +147,9 @@ class ModuleEnv:
         return None
 
     def getitem_model(self, base, idx, eng, st, node):
+        return None
+
+    def identical_model(self, a, b):
         return None
 
     def list_slice(self, base: VList, idx: VSlice, eng, st):
@@ -427,7 +430,19 @@ class ModuleEnv:
                 eng.oblige(st, sb(r, 'goal'), f'pre[{k}]:{key}@L{ln}', 'pre', node, note=r)
         for exc, cond in c.get('raises', {}).items():
             if cond is True:
-                continue       # may raise non-deterministically: not modelled as a path (declared only)
+                continue       # may raise in states the contract does not characterise: declared only
+            if cond == 'maybe' or (isinstance(cond, tuple) and cond[0] == 'maybe'):
+                # may raise non-deterministically (only when the optional condition holds): both continuations explored
+                nb = z3.Bool(f'raises_{exc}@L{node.lineno}c{node.col_offset}')
+                if isinstance(cond, tuple):
+                    sub.defs = []
+                    nb = z3.And(nb, eng.truth(eng.ev(ast.parse(cond[1], mode='eval').body, sub), sub))
+                d = eng.decide(st, nb)
+                if d is None:
+                    raise ForkReq(nb)
+                if d is True:
+                    raise RaiseReq(exc)
+                continue
             sub.defs = []
             t = eng.truth(eng.ev(ast.parse(cond, mode='eval').body, sub), sub)
             for dfn in sub.defs:
